@@ -785,7 +785,8 @@ class FileCase:
             return None
         shutil.copyfile(self.old, self.tmp)
         stale = upg.collect_tasks(self.tmp)[0] if resume == "stale" else None
-        ret, writes, out = run_upgrade(self.tmp, raise_at=k, exc=Kill if exc == "kill" else Interrupt)
+        ret, writes, out = run_upgrade(self.tmp, raise_at=k,
+                                       exc={"kill": Kill, "oserror": OSError}.get(exc, Interrupt))
         kcls = "first" if k == 1 else ("last" if k == n else "middle")
         if k <= n:
             want = "killed" if exc == "kill" else False
@@ -896,7 +897,8 @@ def run_file(base, ctx, ks="all", resumes=("fresh", "stale"), exc=None):
             for resume in resumes:
                 if ks == "all" and resume == "stale" and n > 6 and k not in some:
                     continue                # every k is resumed afresh; a stale list at 6 spread points
-                e = exc or ("kill" if (k + len(fc.props)) % 3 == 0 else "error")
+                # three ways a write-open can fail: an error, the process being killed, an I/O error (OSError)
+                e = exc or ("kill", "error", "oserror")[(k + len(fc.props)) % 3]
                 fc.interrupted(k, resume, e)
                 kc = "k:first" if k == 1 else ("k:none(n+1)" if k == n + 1 else ("k:last" if k == n else "k:middle"))
                 case = fc.case(k, resume, e)
@@ -940,7 +942,11 @@ def prop_st(draw, name):
          "unit": draw(st.sampled_from(UNITS)), "def": draw(st.one_of(st.none(), TEXT))}
     if p["unit"] is not None and draw(st.integers(0, 3)) == 0:
         p["raw_unit"] = draw(st.sampled_from(RAW_UNITS))
-    um = draw(st.sampled_from(["zero", "zero", "common", "distinct", "distinct2"]))
+    um = draw(st.sampled_from(["zero", "zero", "common", "distinct", "distinct2", "close"]))
+    if um == "close":
+        # distinct per-value uncertainties that differ by very little (nano-scaled quantities, or in the 6th digit):
+        # still per-value extras that must stay retrievable one by one
+        p["unc"] = draw(st.sampled_from([[1e-9, 5e-9, 2e-9], [2.5, 2.50001], [3e-10, 1e-10], [1.0, 1.000001, 1.000002]]))
     if um == "common":
         p["unc"] = [draw(SMALL_F)]
     elif um == "distinct":
@@ -1062,7 +1068,7 @@ def _valid(case):
             pass
     if not isinstance(case.get("k", 0), int) or case.get("k", 0) < 0:
         return False
-    if case.get("resume", "fresh") not in ("fresh", "stale") or case.get("exc", "error") not in ("error", "kill"):
+    if case.get("resume", "fresh") not in ("fresh", "stale") or case.get("exc", "error") not in ("error", "kill", "oserror"):
         return False
     rec = case["recipe"]
     if not isinstance(rec.get("secs", []), list) or not isinstance(rec.get("blocks", []), list):
